@@ -54,17 +54,41 @@ def _enum(E, v):
 _code = core.std_code    # int(code read back), after `code == E.NAME  <=>  it is the standard's code for NAME`
 
 
-def _msg_type(code):
+def _msg_type(code, form=None):
     """the message type an application passes to ReservedCfdpMessage for the code `code` of table 6-1: the member of
     ProxyMessageType / DirectoryOperationMessageType with the standard name of the code, the module constant
-    ORIGINATING_TRANSACTION_ID_MSG_TYPE_ID for 0x0A (fetched by name), the plain int for every other code"""
+    ORIGINATING_TRANSACTION_ID_MSG_TYPE_ID for 0x0A (fetched by name), the plain int for every other code.
+    form (case key "forms"): 'int' - the plain int of the same value; 'other' - a member of a foreign IntEnum class of that
+    value (any octet, and -1)"""
     if isinstance(code, int) and not isinstance(code, bool):
         for E in (ProxyMessageType, DirectoryOperationMessageType):
             if code in core.std_table(E).values():
-                return core.std_member(E, code)
+                return core.plain_code_form(core.std_member(E, code), code, form)
         if code == ORIG_TYPE:
-            return core.std_constant(tlvmod, "ORIGINATING_TRANSACTION_ID_MSG_TYPE_ID", code)
+            return core.plain_code_form(core.std_constant(tlvmod, "ORIGINATING_TRANSACTION_ID_MSG_TYPE_ID", code), code, form)
+        return core.plain_code_form(code, code, form)
     return code
+
+
+# ---------------------------------------------------------------- the form of each argument (case key "forms", core.code_form)
+# `a["forms"]` names, per argument of the op line, the Python form in which it is handed to the library: codes as 'member'
+# (default) / 'int' / 'other' (member of a foreign IntEnum), flags as 'bool' (default) / 'int', octets as 'bytes' (default) /
+# 'bytearray'; "tlv_type" (+ "type_via": 'setter'): the message is ALSO taken over from a generic CfdpTlv whose type is the
+# message-to-user code in that form (constructor argument, or assigned through the `tlv_type` setter), and everything the op
+# reads is read from THAT message. The Lean ops do not read the key: the values are the same, so are the answers.
+def _f(a, key):
+    f = a.get("forms")
+    return f.get(key) if f else None
+
+
+def _arg(E, a, key):
+    f = a.get("forms")
+    return core.code_form(E, a[key], f.get(key)) if f else core.std_member(E, a[key])
+
+
+def _oct(a, key):
+    f = a.get("forms")
+    return core.octets_form(unhx(a[key]), f.get(key)) if f else unhx(a[key])
 
 
 def _field(a, pfx) -> UnsignedByteField:
@@ -174,21 +198,42 @@ def _tlv_view(t) -> Dict[str, Any]:
     return {"type": _code(TlvType, t.tlv_type), "value": hx(t.value), "packet_len": int(t.packet_len)}
 
 
-def _msg_to_user(raw: bytes) -> MessageToUserTlv:
+_NO_FORMS: Dict[str, Any] = {}
+
+
+def _msg_to_user(raw: bytes, forms: Optional[Dict[str, Any]] = None) -> MessageToUserTlv:
     """decode a packed TLV as message to user — directly and through the generic TLV + holder"""
-    mu = MessageToUserTlv.unpack(raw)
-    mu2 = TlvHolder(CfdpTlv.unpack(raw)).to_msg_to_user()
+    forms = forms or _NO_FORMS
+    buf = core.octets_form(raw, forms["raw"]) if "raw" in forms else raw
+    mu = MessageToUserTlv.unpack(buf)
+    mu2 = TlvHolder(CfdpTlv.unpack(buf)).to_msg_to_user()
     _need(isinstance(mu, MessageToUserTlv) and isinstance(mu2, MessageToUserTlv), "not a MessageToUserTlv")
     # messages decoded by earlier calls must still show what they showed then
     core.ISOLATION.check("MessageToUserTlv", mu, _tlv_view)
     _need(bytes(mu.value) == bytes(mu2.value) and mu == mu2, "unpack and TlvHolder.to_msg_to_user disagree")
     a, b = mu.is_reserved_cfdp_message(), mu2.is_reserved_cfdp_message()
     _need(bool(a) == bool(b), "is_reserved_cfdp_message differs between the two decoding routes")
+    if forms.get("tlv_type") is not None:
+        # the same message taken over from a generic TLV whose type is the message-to-user CODE in the given form; the
+        # exceptions of the conversion propagate (the octets were accepted as a message to user above)
+        def generic():
+            ty, val = core.code_form(TlvType, 2, forms["tlv_type"]), bytes(mu.value)
+            if forms.get("type_via") == "setter":
+                g = CfdpTlv(core.std_member(TlvType, 5), val)
+                g.tlv_type = ty
+                return g
+            return CfdpTlv(ty, val)
+        mu3, mu4 = MessageToUserTlv.from_tlv(generic()), TlvHolder(generic()).to_msg_to_user()
+        for m in (mu3, mu4):
+            _need(isinstance(m, MessageToUserTlv) and _tlv_view(m) == _tlv_view(mu) and m == mu and mu == m
+                  and bytes(m.pack()) == bytes(mu.pack()) and bool(m.is_reserved_cfdp_message()) == bool(a),
+                  "the message taken over from a generic TLV of the message-to-user type differs from the decoded one")
+        return mu3
     return mu
 
 
-def _reserved_of(raw: bytes) -> Optional[ReservedCfdpMessage]:
-    mu = _msg_to_user(raw)
+def _reserved_of(raw: bytes, forms: Optional[Dict[str, Any]] = None) -> Optional[ReservedCfdpMessage]:
+    mu = _msg_to_user(raw, forms)
     flag = bool(mu.is_reserved_cfdp_message())
     r = mu.to_reserved_msg_tlv()
     _need((r is not None) == flag, "to_reserved_msg_tlv() is None exactly when the message is not reserved: violated")
@@ -314,13 +359,12 @@ def _with_prior(fn):
 
 # ---------------------------------------------------------------- raw-based ops
 def op_is_reserved(a):
-    mu = _msg_to_user(unhx(a["raw"]))
+    mu = _msg_to_user(unhx(a["raw"]), a.get("forms"))
     return {"reserved": bool(mu.is_reserved_cfdp_message()), "value": hx(mu.value)}
 
 
 def op_is_reserved_value(a):
-    v = unhx(a["value"])
-    mu = MessageToUserTlv(v)
+    mu = MessageToUserTlv(_oct(a, "value"))
     flag = bool(mu.is_reserved_cfdp_message())
     if not flag:
         _need(mu.to_reserved_msg_tlv() is None, "to_reserved_msg_tlv of a non-reserved message is not None")
@@ -328,7 +372,7 @@ def op_is_reserved_value(a):
 
 
 def op_to_reserved(a):
-    r = _reserved_of(unhx(a["raw"]))
+    r = _reserved_of(unhx(a["raw"]), a.get("forms"))
     if r is None:
         return {"none": True}
     return {"none": False, **_classify(r)}
@@ -348,7 +392,7 @@ def _lenient(a, fn):
 
 def op_get(a):
     def run():
-        r = _reserved_of(unhx(a["raw"]))
+        r = _reserved_of(unhx(a["raw"]), a.get("forms"))
         if r is None:
             return {"reserved": False}
         return {"reserved": True, "res": GET[a["getter"]](r)}
@@ -357,7 +401,7 @@ def op_get(a):
 
 def op_view(a):
     def run():
-        r = _reserved_of(unhx(a["raw"]))
+        r = _reserved_of(unhx(a["raw"]), a.get("forms"))
         if r is None:
             return {"reserved": False}
         return {"reserved": True, "view": _view(r)}
@@ -365,7 +409,7 @@ def op_view(a):
 
 
 def op_new(a):
-    r = ReservedCfdpMessage(_msg_type(a["msg_type"]), unhx(a["value"]))
+    r = ReservedCfdpMessage(_msg_type(a["msg_type"], _f(a, "msg_type")), _oct(a, "value"))
     raw = core.pack_stable(r, "ReservedCfdpMessage.pack()")
     _need(len(raw) == r.packet_len, "len(pack()) != packet_len")
     return {"raw": hx(raw), **_classify(r)}
@@ -382,7 +426,7 @@ def _roundtrip(msg, a, same_params=None):
     _need(isinstance(g, MessageToUserTlv) and core.pack_stable(g, "to_generic_msg_to_user_tlv().pack()") == raw,
           "to_generic_msg_to_user_tlv() packs differently")
     _need(bytes(msg.pack()) == raw, "pack() after to_generic_msg_to_user_tlv().pack() gives different octets")
-    mu = _msg_to_user(raw + unhx(a["suffix"]))
+    mu = _msg_to_user(raw + unhx(a["suffix"]), a.get("forms"))
     r2 = mu.to_reserved_msg_tlv()
     if r2 is None:
         return {"raw": hx(raw), "reserved": False}
@@ -398,7 +442,7 @@ def _roundtrip(msg, a, same_params=None):
 
 def op_b_put_request(a):
     ident = _field(a, "dest")
-    params = ProxyPutRequestParams(ident, CfdpLv(unhx(a["src"])), CfdpLv(unhx(a["dst"])))
+    params = ProxyPutRequestParams(ident, CfdpLv(_oct(a, "src")), CfdpLv(_oct(a, "dst")))
 
     def same(r2):
         p = r2.get_proxy_put_request_params()
@@ -412,12 +456,11 @@ def op_b_cancel(a):
 
 
 def op_b_closure(a):
-    flag = bool(a["flag"]) if a["flag"] in (0, 1) else a["flag"]
-    return _roundtrip(ProxyClosureRequest(flag), a)
+    return _roundtrip(ProxyClosureRequest(core.flag_form(a["flag"], _f(a, "flag"))), a)
 
 
 def op_b_tx_mode(a):
-    return _roundtrip(ProxyTransmissionMode(_enum(TransmissionMode, a["mode"])), a)
+    return _roundtrip(ProxyTransmissionMode(_arg(TransmissionMode, a, "mode")), a)
 
 
 def op_b_orig_id(a):
@@ -431,7 +474,7 @@ def op_b_orig_id(a):
 
 
 def _dir_params(a) -> DirectoryParams:
-    return DirectoryParams(CfdpLv(unhx(a["path"])), CfdpLv(unhx(a["name"])))
+    return DirectoryParams(CfdpLv(_oct(a, "path")), CfdpLv(_oct(a, "name")))
 
 
 def op_b_dir_request(a):
@@ -448,12 +491,11 @@ def op_b_dir_response(a):
     def same(r2):
         x = r2.get_dir_listing_response_params()
         _need(x is not None and bool(x[0]) == a["success"] and x[1] == p, "decoded listing response != original")
-    return _roundtrip(DirectoryListingResponse(a["success"], p), a, same)
+    return _roundtrip(DirectoryListingResponse(core.flag_form(a["success"], _f(a, "success")), p), a, same)
 
 
 def op_b_dir_params(a):
-    cv = lambda x: bool(x) if x in (0, 1) else x
-    o = DirListingOptions(cv(a["recursive"]), cv(a["all"]))
+    o = DirListingOptions(core.flag_form(a["recursive"], _f(a, "recursive")), core.flag_form(a["all"], _f(a, "all")))
 
     def same(r2):
         _need(r2.get_dir_listing_options() == o, "decoded listing options != original")
@@ -461,7 +503,7 @@ def op_b_dir_params(a):
 
 
 def op_b_put_response(a):
-    cc, dc, fs = _enum(ConditionCode, a["cc"]), _enum(DeliveryCode, a["dc"]), _enum(FileStatus, a["fs"])
+    cc, dc, fs = _arg(ConditionCode, a, "cc"), _arg(DeliveryCode, a, "dc"), _arg(FileStatus, a, "fs")
     if a.get("via_finished"):
         params = ProxyPutResponseParams.from_finished_params(FinishedParams(cc, dc, fs))
         _need(params == ProxyPutResponseParams(cc, dc, fs), "from_finished_params does not copy the three codes")
@@ -482,7 +524,7 @@ def _dec(h: str) -> str:
 
 
 def op_str(a):
-    la, lb = CfdpLv(unhx(a["a"])), CfdpLv(unhx(a["b"]))
+    la, lb = CfdpLv(_oct(a, "a")), CfdpLv(_oct(a, "b"))
     if a["kind"] == "put":
         p = ProxyPutRequestParams(ByteFieldU8(1), la, lb)
         return {"a": hx(p.source_file_as_str.encode()), "b": hx(p.dest_file_as_str.encode())}
@@ -622,6 +664,40 @@ def sfx(rng: random.Random) -> str:
     return rng.choice(SUFFIXES) if rng.random() < 0.5 else ""
 
 
+# ---------------------------------------------------------------- forms the UNCHANGED library accepts, per op argument
+# (established on /repo 066f1b2: message types / codes are appended to a bytearray or shifted and or-ed, flags are shifted or
+# put into bytes([..]), so member, plain int and a member of a foreign IntEnum - bool and int for a flag - behave alike; octet
+# arguments are measured, sliced and extended, so bytes and bytearray behave alike. memoryview is NOT generated: no signature
+# names it and the *_as_str accessors refuse it today)
+_T, _FL, _O = core.CODE_FORMS, core.FLAG_FORMS, core.OCTET_FORMS
+_DECODE_SPEC = {"raw": _O, "tlv_type": (None, "member", "int", "other"), "type_via": ("ctor", "setter")}
+_ROUTE_SPEC = {"tlv_type": (None, "int", "other"), "type_via": ("ctor", "setter")}
+# op -> (share of the generated cases of that op that are repeated once with drawn forms, spec)
+_FORM_SPEC = {
+    "rsv_is_reserved": (0.1, _DECODE_SPEC), "rsv_to_reserved": (0.1, _DECODE_SPEC), "rsv_get": (0.025, _DECODE_SPEC),
+    "rsv_view": (0.025, _DECODE_SPEC), "rsv_is_reserved_value": (0.05, {"value": _O}),
+    "rsv_new": (0.25, {"msg_type": _T, "value": _O}),
+    "rsv_b_put_request": (0.1, {"src": _O, "dst": _O, **_ROUTE_SPEC}), "rsv_b_cancel": (1.0, _ROUTE_SPEC),
+    "rsv_b_closure": (1.0, {"flag": _FL, **_ROUTE_SPEC}), "rsv_b_tx_mode": (1.0, {"mode": _T, **_ROUTE_SPEC}),
+    "rsv_b_orig_id": (0.1, _ROUTE_SPEC), "rsv_b_dir_request": (0.1, {"path": _O, "name": _O, **_ROUTE_SPEC}),
+    "rsv_b_dir_response": (0.1, {"success": _FL, "path": _O, "name": _O, **_ROUTE_SPEC}),
+    "rsv_b_dir_params": (1.0, {"recursive": _FL, "all": _FL, **_ROUTE_SPEC}),
+    "rsv_b_put_response": (0.5, {"cc": _T, "dc": _T, "fs": _T, **_ROUTE_SPEC}),
+    "rsv_str": (0.2, {"a": _O, "b": _O}),
+}
+
+
+def _form_variant(c: Case, frng: random.Random):
+    """the case once more, its arguments in forms drawn from the table above (None: not this time)"""
+    spec = _FORM_SPEC.get(c.op["op"])
+    if spec is None or frng.random() >= spec[0] or "forms" in c.op:
+        return None
+    forms = core.draw_forms(frng, spec[1])
+    if "tlv_type" not in forms:
+        forms.pop("type_via", None)
+    return core.case_with_forms(c, forms) if forms else None
+
+
 class C18(Prop):
     id = "C18"
     title = "Reserved CFDP messages round-trip via TLVs"
@@ -634,11 +710,15 @@ class C18(Prop):
                        "all eight getters; all 256 values of every parameter octet (put response, closure, transmission "
                        "mode, listing options, listing-response flag, originating-ID width octet); all 256 substitutions of "
                        "each of the first four ('cfdp') octets for the reserved-message test; every truncation of sampled "
-                       "messages of every kind")
+                       "messages of every kind; all 256 message types of the raw constructor as plain int and as member of a foreign "
+                       "IntEnum, every flag as bool and int, every message kind taken over from a generic TLV whose type is the "
+                       "message-to-user code as int / foreign member / member, by constructor and through the setter (case key 'forms')")
     trusted_base = ["names are octet strings (CfdpLv values) on both sides; the *_as_str accessors are modelled by "
                     "decodeUtf8 (utf8Valid tied to CPython's strict decoder by C08)",
                     "TransactionId.__eq__/__hash__ compare values only; widths are compared field by field in the payload"]
-    assumptions = ["enum-typed parameters are members of the library's enumerations; closure/listing flags are bool",
+    assumptions = ["enum-typed parameters are members of the library's enumerations; closure/listing flags are bool; cases "
+                   "with a 'forms' key pass the same codes as plain ints / members of a foreign IntEnum class, the same flags as "
+                   "int 0/1 and the same octets as bytearray (the forms the library accepts on the unchanged tree)",
                    "ReservedCfdpMessage(msg_type, value) is called with an int and an octet string"]
 
     def impl_ops(self):
@@ -706,6 +786,80 @@ class C18(Prop):
 
     # ------------------------------------------------------------------------------------------
     def cases(self, rng: random.Random, tier: str) -> Iterator[Case]:
+        """the generated stream (unchanged), followed by the TYPE-COERCION dimension: a share of those cases once more with
+        their arguments in other forms (own random stream: the stream above is the same with and without it), and the
+        exhaustive tables of gen_forms"""
+        frng = core.forms_rng(rng)
+        later: List[Case] = []
+        for c in self.base_cases(rng, tier):
+            yield c
+            v = _form_variant(c, frng)
+            if v is not None:
+                later.append(v)
+        yield from later
+        yield from self.gen_forms(frng, tier == "thorough")
+
+    # -- every message type / code / flag in every form; every message kind taken over from a generic TLV of int type -----
+    def gen_forms(self, frng, thorough):
+        routes = [{"tlv_type": tf, **({"type_via": "setter"} if via == "setter" else {})}
+                  for tf in ("int", "other", "member") for via in ("ctor", "setter")]
+        # the raw constructor: all 256 message types as int / as foreign member (quick tier: the types the library names in
+        # both forms, the others in one of them)
+        named = PROXY_TYPES + DIR_TYPES + [ORIG_TYPE]
+        for t in range(256):
+            for tf in (("int", "other") if thorough or t in named else (("int", "other")[t % 2],)):
+                f = {"msg_type": tf, **({"value": "bytearray"} if (t + len(tf)) % 2 else {})}
+                yield Case({"op": "rsv_new", "msg_type": t, "value": hx(rbytes(frng, frng.choice([0, 1, 5, 30]))), "forms": f},
+                           "valid", tag="forms-all-types")
+        for t in (-1, 256, 257):
+            for tf in ("int", "other"):
+                yield Case({"op": "rsv_new", "msg_type": t, "value": "00", "forms": {"msg_type": tf}}, "invalid",
+                           tag="forms-type-not-an-octet")
+        # the one-octet builders: every value in every form, every route
+        for r in routes:
+            yield Case({"op": "rsv_b_cancel", "suffix": sfx(frng), "forms": r}, "valid", tag="forms-cancel")
+            for f in (0, 1):
+                for ff in _FL:
+                    yield Case({"op": "rsv_b_closure", "flag": f, "suffix": sfx(frng), "forms": {"flag": ff, **r}}, "valid",
+                               tag="forms-closure")
+                    yield Case({"op": "rsv_b_dir_params", "recursive": f, "all": 1 - f, "suffix": sfx(frng),
+                                "forms": {"recursive": ff, "all": frng.choice(_FL), **r}}, "valid", tag="forms-listing-options")
+                    yield Case({"op": "rsv_b_dir_params", "recursive": f, "all": f, "suffix": sfx(frng),
+                                "forms": {"recursive": frng.choice(_FL), "all": ff, **r}}, "valid", tag="forms-listing-options")
+                    yield Case({"op": "rsv_b_dir_response", "path": hx(name(frng, 5)), "name": hx(name(frng, 9)), "success": bool(f),
+                                "suffix": sfx(frng), "forms": {"success": ff, "path": frng.choice(_O), **r}}, "valid",
+                               tag="forms-listing-response")
+                for tf in _T:
+                    yield Case({"op": "rsv_b_tx_mode", "mode": f, "suffix": sfx(frng), "forms": {"mode": tf, **r}}, "valid",
+                               tag="forms-tx-mode")
+        for cc in CC_MEMBERS:
+            for dc in (0, 1):
+                for fs in range(4):
+                    for tf in (("int", "other") if thorough else (("int", "other")[(cc + dc + fs) % 2],)):
+                        f = {"cc": tf, "dc": frng.choice(_T), "fs": frng.choice(_T)}
+                        f[frng.choice(["dc", "fs"])] = tf
+                        yield Case({"op": "rsv_b_put_response", "cc": cc, "dc": dc, "fs": fs, "via_finished": bool((cc + fs) & 1),
+                                    "suffix": sfx(frng), "forms": {**f, **frng.choice(routes + [{}, {}])}}, "valid",
+                                   tag="forms-all-enum-values")
+        # every message kind decoded, taken over from the generic TLV of int / foreign / member type, parameters read
+        for _ in range(20 if thorough else 1):
+            for r in routes:
+                w, sw, qw = frng.choice(W), frng.choice(W), frng.choice(W)
+                kinds = [(v_put_req(w, frng.randrange(256 ** w), name(frng, frng.randint(0, 9)), name(frng, frng.randint(0, 9))), "put_req"),
+                         (v_orig(sw, frng.randrange(256 ** sw), qw, frng.randrange(256 ** qw)), "orig_id"),
+                         (MARKER + b"\x07" + bytes([(frng.choice(CC_MEMBERS) << 4) | frng.randrange(8)]), "put_resp"),
+                         (MARKER + b"\x0b" + bytes([frng.randrange(2)]), "closure"), (MARKER + b"\x04" + bytes([frng.randrange(2)]), "tx_mode"),
+                         (v_dir_req(name(frng, 4), name(frng, 6)), "dir_req"), (v_dir_resp(bool(frng.getrandbits(1)), name(frng, 4), name(frng, 4)), "dir_resp"),
+                         (MARKER + b"\x15" + bytes([frng.randrange(4)]), "dir_opts"), (MARKER + b"\x09", "put_req"),
+                         (rbytes(frng, frng.randint(0, 12)), "closure"), (b"cfd", "orig_id"), (b"cfdp", "dir_req")]
+                for v, g in kinds:
+                    f = {**r, **({"raw": "bytearray"} if frng.random() < 0.5 else {})}
+                    raw = hx(tlv(v) + unhx(sfx(frng)))
+                    yield Case({"op": "rsv_view", "raw": raw, "forms": f}, "valid", tag="forms-decode-route")
+                    yield Case({"op": "rsv_get", "raw": raw, "getter": g, "forms": f}, "valid", tag="forms-decode-route")
+                    yield Case({"op": "rsv_is_reserved", "raw": raw, "forms": f}, "valid", tag="forms-decode-route")
+
+    def base_cases(self, rng: random.Random, tier: str) -> Iterator[Case]:
         thorough = tier == "thorough"
         R = 60 if thorough else 3
         yield from self.gen_put_request(rng, R, thorough)
